@@ -72,6 +72,7 @@ def run(F, R, ctx):
     fold_roundtrip_rule(F, R)
     elision_veto_rule(F, R)
     quasiquote_shape_rule(F, R)
+    definition_order_rule(F, R)
 
 
 # the walkers whose result decides how an assigned variable is compiled: they must see every sub-expression
@@ -648,6 +649,92 @@ def elision_veto_rule(F, R):
 
 
 STDLIB_SCM = "crates/steel-core/src/scheme/stdlib.scm"
+
+
+def definition_order_rule(F, R):
+    R.rule("C01.o", "internal definitions run in textual order (letrec* semantics): the classifier that splits the definitions "
+                    "of a body into eagerly evaluated and delayed ones (ExpressionType::generate_expression_types) "
+                    "(1) records in the set that later classifications consult (DefinedVars::insert) the name of every definition "
+                    "it classifies as a function, eager or delayed one — those names hold a placeholder until the generated "
+                    "inner body assigns them, so a later definition that mentions one must be delayed (a literal is bound by "
+                    "the outer application itself and need not be recorded), and (2) classifies a definition as eager "
+                    "(DefineFlat: evaluated before every expression and delayed definition of the body) only while nothing "
+                    "with a textual position has been seen: the construction of DefineFlat lies on the false side of a flag "
+                    "that every arm producing Expression / DefineFlatStar sets")
+    fn = F.one(r"passes::begin::\{impl ExpressionType\}::generate_expression_types$")
+    heads = [i for i, b in fn.calls() if re.search(r"slice::iter::\{impl Iterator for Iter<T>\}::next$", b["callee"])]
+    sws = [sb for sb in lib.enum_switches(fn, "ExprKind") if "Define" in lib.arm_map(fn, sb)]
+    if len(heads) != 1 or not sws:
+        raise CheckError("anchor lost: the loop over the body / the Define arm in generate_expression_types")
+    head = heads[0]
+    dom = fn.dominators()
+    sw = min(sws, key=lambda b: len(dom.get(b, ())))
+    arm = lib.arm_map(fn, sw)["Define"]
+    ins = set(fn.call_blocks(r"\{impl DefinedVars\}::insert$"))
+    aggs = {}
+    for i, _, e in fn.events("agg"):
+        if e[1] == "ExpressionType":
+            aggs.setdefault(e[2], []).append((i, e[3]))
+    if "DefineFlat" not in aggs or "Expression" not in aggs or "DefineFunction" not in aggs:
+        raise CheckError("anchor lost: ExpressionType::DefineFlat / DefineFunction / Expression are no longer built in generate_expression_types")
+    # names bound by the generated application's parameters only after the inner body's set! (functions, eager and delayed
+    # definitions) must be recorded; a literal is bound by the outer application itself and may be left out
+    late = [i for v in ("DefineFunction", "DefineFlat", "DefineFlatStar") for i, _ in aggs.get(v, [])]
+    r = fn.reachable_from([arm], avoid=ins | {head})
+    unrec = sorted(i for i in late if i in r)
+    R.inst("C01.o", "generate_expression_types / every name that is assigned in the inner body is recorded", bool(ins) and not unrec,
+           "generate_expression_types can classify a definition as a function / eager / delayed one (line %s) without "
+           "DefinedVars::insert: a later definition that reads that name is classified as eager and evaluated while the name "
+           "still holds its placeholder" % (fn.blocks[unrec[0]].get("line") if unrec else "?"),
+           fn.loc(), sample=True)
+    ordered_blocks = [i for v in ("Expression", "DefineFlatStar") for i, _ in aggs.get(v, [])]
+    def set_true(i):
+        # flags set in the straight-line run of blocks that ends in block i
+        out = set()
+        seen = set()
+        cur = i
+        while cur is not None and cur not in seen:
+            seen.add(cur)
+            out |= set(e[1] for e in fn.blocks[cur]["e"] if e[0] == "kv" and e[2] == "const:1")
+            ps = fn.preds()[cur]
+            cur = ps[0] if len(ps) == 1 and fn.blocks[ps[0]]["k"] in ("goto", "call", "assert", "drop") and len(fn.succ(ps[0])) == 1 else None
+        return out
+    for i, line in aggs["DefineFlat"]:
+        guard = None
+        for sb in dom.get(i, ()):
+            blk = fn.blocks[sb]
+            if blk["k"] != "switch" or blk["on"] != "bool":
+                continue
+            loc = re.match(r"_\d+", blk.get("place", "").strip("()*"))
+            if not loc:
+                continue
+            srcs = lib.alias_sources(fn, loc.group(0), depth=4) | {loc.group(0)}
+            t_true, t_false = blk["otherwise"], dict((v, t) for v, t in blk["targets"]).get("0")
+            if i in fn.reachable_from([t_true], avoid={head, sb}) and t_true != t_false:
+                continue   # reachable from the flag's true side
+            cands = set(x for x in srcs if re.fullmatch(r"_\d+", x))
+
+            def under_true(ob):
+                # ob lies on the true side of a test of the same flag (the flag is already set there)
+                for sb2 in dom.get(ob, ()):
+                    b2 = fn.blocks[sb2]
+                    if b2["k"] != "switch" or b2["on"] != "bool":
+                        continue
+                    l2 = re.match(r"_\d+", b2.get("place", "").strip("()*"))
+                    if not l2 or not ((lib.alias_sources(fn, l2.group(0), depth=4) | {l2.group(0)}) & cands):
+                        continue
+                    f2 = dict((v, t) for v, t in b2["targets"]).get("0")
+                    if f2 is not None and ob not in fn.reachable_from([f2], avoid={head, sb2}) and f2 != ob:
+                        return True
+                return False
+            if cands and all((cands & set_true(ob)) or under_true(ob) for ob in ordered_blocks):
+                guard = sb
+        R.inst("C01.o", "generate_expression_types / eager classification only before anything ordered", guard is not None,
+               "generate_expression_types classifies a definition as DefineFlat (line %s) without testing a flag that the "
+               "Expression and DefineFlatStar arms set: its right-hand side is evaluated with the arguments of the generated "
+               "application, i.e. before expressions and delayed definitions that precede it in the body — "
+               "`(define (f) (define (g) 1) (display 1) (define x (begin (display 2) 1)) x)` prints 21" % line,
+               fn.loc(line), sample=True)
 
 
 def quasiquote_shape_rule(F, R):
